@@ -372,6 +372,11 @@ class Gen:
                 toks += [ind if not self.p(0.05) else self.indent()] + self.let_tokens(name, val)
                 if self.p(0.03):
                     toks += self.stmt_comment()
+            if self.p(0.35):
+                # a chain inside the block: the second right-hand side mentions the first name
+                n1, n2 = self.r.sample(["x", "y", "cflags"], 2)
+                toks += [ind] + self.let_tokens(n1, [b"blk" + str(self.nout).encode()])
+                toks += [ind] + self.let_tokens(n2, [b"<", b"${" + n1.encode() + b"}", b">"])
         for o in outs:
             if o not in self.outputs:
                 self.outputs.append(o)
